@@ -158,3 +158,42 @@ Print Assumptions C07_blocked_forever_refuted.
 Theorem C07_nil_deref_refuted : crashed (prefix_run prefix_cfg init d22_schedule) = true.
 Proof. exact prefix_nil_deref. Qed.
 Print Assumptions C07_nil_deref_refuted.
+
+(* ---- C07_signal_goroutine_never_panics: the goroutine that runs CallSignal has NO recover (atp/server.go
+   handleSignalMessage), so a panic below it would kill the plugin.  For EVERY plugin, run, step, signal id and
+   EVERY payload (any Go value: nil, a string, a number, a list, a map of any shape) CallSignal - step lookup,
+   signal lookup, Unserialize of the signal's data schema, step-data set-up, Validate (Call/Step.v) - yields a
+   result or an error, never a panic, as soon as the data schema is well formed (Schema/Wf.v = the constructors'
+   contracts; C04_never_panics).  This is what makes `dataok : bool` in ATP/Server.v's KSignal a complete
+   description of the call; it covers data schemas WITHOUT properties and with exactly ONE (the lone-value
+   shorthand), whose payload matrix the atpsrv family runs against the real server. ---- *)
+From Verif Require Import Base.Float Base.GoVal Schema.Units Schema.Syntax Schema.Ops Schema.Wf Call.Step Interp.RunAtpsrv Proofs.C07Payload.
+Theorem C07_signal_goroutine_never_panics :
+  forall (words : list (string * bool)) (pu : units -> string -> option fl) (e : env) (fuel : nat)
+         (ps : pstate) (p : plugin) (run : string) (sid : string) (sig : string) (raw : gval),
+  (forall st ss, alookup sid p = Some st -> alookup sig (sd_signals st) = Some ss -> wf_schema e ss = true) ->
+  is_spanic (fst (fst (call_signal words pu e fuel ps p run sid sig raw))) = false.
+Proof. exact c07_call_signal_never_panics. Qed.
+Print Assumptions C07_signal_goroutine_never_panics.
+
+(* the schemas the interpreter (Interp/RunAtpsrv.v) judges the payloads of the sigv / wsv actions with - signals
+   "sig" {n: int, required}, "stop" {} and "two" {a: int, b: string}, step inputs "z" {} and "o" {tok: int} - are
+   well formed; Unserialize and Validate never panic on them, whatever the payload and the fuel *)
+Theorem C07_payload_schemas_never_panic :
+  forall (words : list (string * bool)) (pu : units -> string -> option fl) (s : schema), In s c07_payload_schemas ->
+  forall f v w, unser words pu f c07_env s v <> Panic w /\ validate words pu f c07_env s v <> Panic w.
+Proof. exact c07_payload_schemas_never_panic. Qed.
+Print Assumptions C07_payload_schemas_never_panic.
+
+Example C07_payload_schemas_nonvacuous :
+  forallb (wf_schema c07_env) c07_payload_schemas = true /\ List.length c07_payload_schemas = 5%nat.
+Proof. exact c07_payload_schemas_wf. Qed.
+
+(* zero properties: a string, nil and a list are REJECTED (an error, not a panic), the empty map is accepted; one
+   property: a lone integer is the property's shorthand; two properties: a lone value is rejected *)
+Example C07_payload_examples :
+  c07_sig_ok "stop" (VStr TStr "now") = false /\ c07_sig_ok "stop" VNil = false /\
+  c07_sig_ok "stop" (VSlice t_any_slice false []) = false /\ c07_sig_ok "stop" (VMap t_any_map false []) = true /\
+  c07_sig_ok "sig" (vi64 1) = true /\ c07_sig_ok "sig" (VStr TStr "now") = false /\
+  c07_sig_ok "two" (vi64 1) = false /\ c07_step_ok "z" (vi64 1) = false /\ c07_step_ok "o" (vi64 1) = true.
+Proof. exact c07_payload_examples. Qed.
